@@ -68,6 +68,9 @@ type Stats struct {
 	Samples      []json.RawMessage `json:"samples"`
 	Digests      []string          `json:"digests,omitempty"`
 	Nondet       string            `json:"nondeterminism,omitempty"`
+	HarnessErr   string            `json:"harness_error,omitempty"`
+	Panics       int               `json:"sut_panics"` // cases skipped because the code under test panicked where a panic is not this property's subject
+	PanicSample  string            `json:"sut_panic_sample,omitempty"`
 	WallS        float64           `json:"wall_s"`
 	Batches      int               `json:"batches"`
 	RapidSeeds   []uint64          `json:"rapid_seeds,omitempty"`
@@ -220,9 +223,25 @@ func runProperty[C any](t *testing.T, prop string, gen func(*rapid.T) C, run fun
 	}
 	defer writeStats()
 
+	safeRun := func(c C) (o *Outcome) {
+		defer func() {
+			if r := recover(); r != nil {
+				st.Panics++
+				if st.PanicSample == "" {
+					cj, _ := json.Marshal(c)
+					st.PanicSample = fmt.Sprintf("%v on case %s", r, cj)
+					if len(st.PanicSample) > 1500 {
+						st.PanicSample = st.PanicSample[:1500]
+					}
+				}
+				o = &Outcome{Skip: true}
+			}
+		}()
+		return run(c)
+	}
 	property := func(rt *rapid.T) {
 		c := gen(rt)
-		o := run(c)
+		o := safeRun(c)
 		if o.Skip {
 			return
 		}
@@ -237,7 +256,7 @@ func runProperty[C any](t *testing.T, prop string, gen func(*rapid.T) C, run fun
 			}
 			// in-process re-execution of a sample of cases: the run must be a pure function of the case
 			if o.Digest != "" && (caseNo <= 3 || caseNo%97 == 0) {
-				o2 := run(c)
+				o2 := safeRun(c)
 				if o2.Digest != o.Digest || o2.Violation != o.Violation {
 					cj, _ := json.Marshal(c)
 					st.Nondet = fmt.Sprintf("case %d gave digest %s then %s (violation %q then %q): %s", caseNo, o.Digest, o2.Digest, o.Violation, o2.Violation, cj)
@@ -322,6 +341,9 @@ func runProperty[C any](t *testing.T, prop string, gen func(*rapid.T) C, run fun
 		}
 		ok := t.Run(fmt.Sprintf("b%d", b), func(t *testing.T) { rapid.Check(t, property) })
 		if !ok {
+			if st.Violation == "" {
+				st.HarnessErr = fmt.Sprintf("rapid batch %d (seed %d) failed without a property violation (see the worker log)", b, curRapidSeed)
+			}
 			break
 		}
 	}
